@@ -89,6 +89,11 @@ pub mod mm {
     }
     #[inline]
     pub fn acos(x: f32) -> f32 {
+        // Micromath divides by x: the quotient overflows for tiny
+        // nonzero x, yielding a NaN instead of pi/2
+        if -1e-12 < x && x < 1e-12 {
+            return core::f32::consts::FRAC_PI_2;
+        }
         mm::acos(x)
     }
     #[inline]
